@@ -595,9 +595,11 @@ def feature_dists(node, P):
         a = verts
         b = np.roll(verts, -1, axis=1)
         e = b - a
-        nrm = np.stack([-e[:, :, 1], e[:, :, 0]], axis=2)
-        nrm = nrm / np.linalg.norm(nrm, axis=2, keepdims=True)
-        d = np.abs(np.sum((P[node["var"]][:, None, :] - a) * nrm, axis=2))
+        # distance to the edge SEGMENTS (not to their lines: a point on the continuation of an edge beyond its
+        # corner is not near that edge)
+        w = P[node["var"]][:, None, :] - a
+        tpar = np.clip(np.sum(w * e, axis=2) / np.maximum(np.sum(e * e, axis=2), 1e-300), 0.0, 1.0)
+        d = np.linalg.norm(w - tpar[:, :, None] * e, axis=2)
         return [d[:, i] for i in range(d.shape[1])]
     if k == "poly":
         p = P[node["var"]]
